@@ -275,6 +275,74 @@ pub fn run_c11(ctx: &Ctx) -> Report {
         fam_desc.push(json!({"field": name, "identifiers": m}));
     }
     rep.extra.insert("field_sweeps".into(), json!(fam_desc));
+    // the same product domain with the operands reached along OTHER routes than from_parts: parsed
+    // from the UPPER-case / `_` spelling; emptied with set_variants(&[]) / clear_variants() after
+    // having held variants; assigned field by field on a default value; cloned into a value that
+    // held something else (clone_from).  matches() must answer as for the from_parts value of the
+    // same model -- a representation that only one route produces (a present-but-empty variant
+    // list, a language stored as the text `und`) shows here.
+    {
+        use unic_langid_impl::subtags::Variant;
+        let routes: Vec<(&'static str, Vec<LanguageIdentifier>)> = vec![
+            ("parsed from UPPER case with '_'", dom.iter().map(|m| m.canon().to_ascii_uppercase().replace('-', "_").parse::<LanguageIdentifier>().expect("domain id parses")).collect()),
+            ("variants set, then set_variants(&[]) / set again", dom.iter().zip(ids.iter()).map(|(m, id)| {
+                let mut x = id.clone();
+                let other: Vec<Variant> = vec!["zzzzz".parse().unwrap(), "1abc".parse().unwrap()];
+                x.set_variants(&other);
+                x.set_variants(&[]);
+                let vs: Vec<Variant> = m.variants.iter().map(|v| v.parse().unwrap()).collect();
+                if !vs.is_empty() {
+                    x.set_variants(&vs);
+                }
+                x
+            }).collect()),
+            ("variants set, then clear_variants() / set again", dom.iter().zip(ids.iter()).map(|(m, id)| {
+                let mut x = id.clone();
+                x.set_variants(&["zzzzz".parse().unwrap()]);
+                x.clear_variants();
+                let vs: Vec<Variant> = m.variants.iter().rev().map(|v| v.parse().unwrap()).collect();
+                if !vs.is_empty() {
+                    x.set_variants(&vs);
+                }
+                x
+            }).collect()),
+            ("clone_from into a value that held something else", ids.iter().map(|id| {
+                let mut x: LanguageIdentifier = "sl-Latn-SI-rozaj-biske-1994".parse().unwrap();
+                x.clone_from(id);
+                x
+            }).collect()),
+            ("fields assigned on a default value", dom.iter().map(|m| {
+                let mut x = LanguageIdentifier::default();
+                x.language = m.lang.as_deref().unwrap_or("und").parse().unwrap();
+                x.script = m.script.as_ref().map(|s| s.parse().unwrap());
+                x.region = m.region.as_ref().map(|s| s.parse().unwrap());
+                let vs: Vec<Variant> = m.variants.iter().map(|v| v.parse().unwrap()).collect();
+                x.set_variants(&vs);
+                x
+            }).collect()),
+        ];
+        let nr = routes.len() as u64;
+        let str_ = par_range(ctx, "E4.route_pairs", nr * n * n, 256, &|idx, l| {
+            let r = (idx / (n * n)) as usize;
+            let (i, j) = (((idx / n) % n) as usize, (idx % n) as usize);
+            let alt = &routes[r].1;
+            // the other-route value on the left, on the right, and on both sides (findings are
+            // re-labelled with the route: the plain pair text would rebuild both sides with from_parts)
+            let c2 = Collector::new();
+            check_pair(&dom[i], &dom[j], &alt[i], &ids[j], l, &c2);
+            check_pair(&dom[i], &dom[j], &ids[i], &alt[j], l, &c2);
+            check_pair(&dom[i], &dom[j], &alt[i], &alt[j], l, &c2);
+            for (_, _, v) in c2.classes() {
+                let t = match &v.case {
+                    Case::Text(t) => t.clone(),
+                    c => c.key(),
+                };
+                coll.push(l.order, Violation { sub: "c11.route", class: format!("operand reached by another route ({}): {}", routes[r].0, v.class), case: Case::Text(format!("route{}:{}", r, t)), expected: v.expected, observed: v.observed });
+            }
+        });
+        rep.add_space("E4.route_pairs", json!({"routes": routes.iter().map(|r| r.0).collect::<Vec<_>>(), "identifiers": n, "ordered_pairs_per_route": n * n, "placements": 3, "flag_pairs": 4}), &str_);
+        rep.transitions += nr * n * n * 3 * 4;
+    }
     // locales
     let locs: Vec<Vec<Locale>> = dom
         .iter()
